@@ -168,7 +168,16 @@ def h_ops(p0: bool, p1: bool, p2: bool, c0: int, c1: int, c2: int, pre: int) -> 
                                 elif objs[entry.hash_info.value] != _canon(sub):
                                     violation("saved-directory-object-wrong-listing", key)
                 elif op == "M":
-                    migrate(prepare(cache, sha))
+                    import dvc_data.hashfile.db.migrate as MG
+                    from vf.hlib import PermExecutor
+
+                    real_exec = MG.ThreadPoolExecutor
+                    PermExecutor.reverse = bool(cube("mrev", True))  # hashing tasks complete in reverse submission order
+                    MG.ThreadPoolExecutor = PermExecutor
+                    try:
+                        migrate(prepare(cache, sha))
+                    finally:
+                        MG.ThreadPoolExecutor = real_exec
                     with NoTracing():
                         a, b = env.odb_objects(cache), env.odb_objects(sha)
                         if sorted(a.values()) != sorted(b.values()):
@@ -198,6 +207,20 @@ def h_ops(p0: bool, p1: bool, p2: bool, c0: int, c1: int, c2: int, pre: int) -> 
                     violation("round-trip-differs", (sorted(got), sorted(files)))
                 if "emptydir" in snap:
                     violation("empty-directory-was-tracked", None)
+                env.remove(out)
+            # the same process checks the object out again after the user removed the first copy
+            try:
+                checkout(out, env.fs, obj, store, force=False, state=st)
+            except HarnessGap:
+                raise
+            except Exception as e:  # noqa: BLE001
+                violation("second-fresh-checkout-raised", f"{type(e).__name__}: {e}")
+                return True
+            with NoTracing():
+                snap = env.snapshot(out)
+                got = {k: (v[1] if v[0] == "file" else env.read(out + "/" + k)) for k, v in snap.items() if v[0] in ("file", "link")}
+                if got != files:
+                    violation("second-round-trip-differs", (sorted(got), sorted(files)))
             # index-level route: build -> md5 -> save -> compare/apply into another fresh location
             from dvc_data.index import DataIndex, ObjectStorage
             from dvc_data.index.build import build as ibuild
